@@ -119,6 +119,19 @@ FrameDomain ==
      payload |-> EncSendData(0, <<ConnAddr(cid), ConnData(sq, msg)>>), cid |-> cid, seq |-> sq, cip |-> msg] :
        x \in CtxPool, cid \in { <<1, 0, 0, 0>>, <<255, 255, 255, 255>> }, sq \in {0, 1, 65535},
        msg \in { EncReq(WCfg, Q("read", 1, "sym", 0, 1, 0, "INT", <<>>, <<>>)) } }
+\* List Identity / List Services replies: boundary values of every field (state 0 and 255, empty and long names)
+IdentDomain ==
+  { [version |-> 1, family |-> 2, port |-> 44818, addr |-> <<10, 161, 1, 5>>, vendor |-> vd, devtype |-> 14, product |-> 54, revision |-> 2836,
+     status |-> 12640, serial |-> <<26, 6, 108, 0>>, name |-> nm, state |-> st] :
+       vd \in {1, 65535}, st \in {0, 3, 255},
+       nm \in { <<>>, <<65>>, <<49, 55, 53, 54, 45, 76, 54, 49, 47, 66, 32, 76, 79, 71, 73, 88, 53, 53, 54, 49>> } }
+ServDomain == { [version |-> 1, capability |-> cp, name |-> nm] : cp \in {32, 288, 0},
+                 nm \in { <<67, 111, 109, 109, 117, 110, 105, 99, 97, 116, 105, 111, 110, 115>>, <<67>> } }
+ListFrames ==
+  { [cmd |-> CmdListIdentity, sess |-> <<0, 0, 0, 0>>, status |-> 0, ctx |-> x, options |-> 0, kind |-> "identity",
+     payload |-> EncCPF(<<EncIdentityItem(it)>>), item |-> it] : x \in {<<1, 2, 3, 4, 5, 6, 7, 8>>}, it \in IdentDomain } \cup
+  { [cmd |-> CmdListServices, sess |-> <<0, 0, 0, 0>>, status |-> 0, ctx |-> x, options |-> 0, kind |-> "services",
+     payload |-> EncCPF(<<EncServicesItem(it)>>), item |-> it] : x \in {<<1, 2, 3, 4, 5, 6, 7, 8>>}, it \in ServDomain }
 EmitFrame(f) == PrintT(ToJson([k |-> "frame", f |-> f, b |-> EncEnip(f.cmd, f.sess, f.status, f.ctx, f.options, f.payload)]))
 
 \* Connection Manager: sizes on both sides of the small/large boundary (511/512), all flag bits, id boundaries
@@ -147,7 +160,7 @@ ASSUME CASE Which = "epath"  -> \A p \in Paths : EmitEPath(p)
          [] Which = "typed"  -> \A x \in TypedDomain : EmitTyped(x)
          [] Which = "logix"  -> (\A r \in WReqs : EmitLogix(r)) /\ (\A ms \in Bundles : EmitBundleW(ms))
          [] Which = "ucsend" -> \A x \in UCDomain : EmitUC(x)
-         [] Which = "frames" -> \A f \in FrameDomain : EmitFrame(f)
+         [] Which = "frames" -> \A f \in FrameDomain \cup ListFrames : EmitFrame(f)
          [] Which = "fwd" -> \A f \in (IF Deep THEN FODomain ELSE FOSmall) : EmitFO(f)
 
 VARIABLE dummy
